@@ -268,6 +268,9 @@ c = R.contract(
     ensures=[
         # text-carrying method: something reaches the stream iff the gate holds for the caller's flags
         "implies(not %s, %s)" % (GATE, UNCHANGED),
+        # ... and a refused text is not kept for later either: the section records nothing (another section's write
+        # re-prints what the sections below it have recorded)
+        "implies(not %s, self._lines == old(self._lines) and seq(self._content) == old(seq(self._content)))" % GATE,
         "implies(%s, self._stream.g_count > old(self._stream.g_count))" % GATE,
         # C11/C15: without ANSI the section degrades to a plain write of the same kind
         "[C11,C15] implies(%s and not %s and new_line, self._stream.g_last.endswith('\\n'))" % (GATE, ANSI),
@@ -289,7 +292,7 @@ c = R.contract(
     ensures=["implies(self._quiet, %s)" % UNCHANGED, "self._stream.g_count >= old(self._stream.g_count)",
              "self._content is old(self._content) or fresh(self._content)",
              # C15: without ANSI support a clear emits nothing (no control codes) and forgets nothing
-             "[C15] implies(not %s, %s and self._lines == old(self._lines) and self._content is old(self._content) "
+             "[C11,C15] implies(not %s, %s and self._lines == old(self._lines) and self._content is old(self._content) "
              "and seq(self._content) == old(seq(self._content)))" % (ANSI, UNCHANGED)],
     modifies=STREAM_GHOST + ["self._lines", "self._content", "items(self._content)"],
 )
@@ -379,6 +382,9 @@ c = R.contract(
     requires=[VALID],
     ensures=[
         "implies(not %s, %s)" % (GATE, UNCHANGED),
+        # ... and a refused text is not kept for later either: the section records nothing (another section's write
+        # re-prints what the sections below it have recorded)
+        "implies(not %s, self._lines == old(self._lines) and seq(self._content) == old(seq(self._content)))" % GATE,
         "implies(%s, self._stream.g_count > old(self._stream.g_count))" % GATE,
         "[C11,C15] implies(%s and not %s, self._stream.g_last.endswith('\\n'))" % (GATE, ANSI),
     ],
